@@ -1,86 +1,104 @@
 (* C03 -- Extraction never writes outside the destination directory.
-   Statements only; the proofs are in theories/FSProofs.v over the models theories/FS.v (pathlib and the
-   kernel's path resolution) and theories/ExtractFS.v (SevenZipFile._extract, Worker.extract,
-   Worker._extract_single and the post-pass of py7zr/py7zr.py).  tools/harness/c03.py ties both models to the
+   Statements only; the proofs are in theories/FSProofs.v over the models theories/FS.v (pathlib, the kernel's
+   path resolution `walk`, and os.path.realpath `pyreal`) and theories/ExtractFS.v (SevenZipFile._extract,
+   Worker.extract, Worker._extract_single and the post-pass of py7zr/py7zr.py, with the real-path checks
+   helpers.check_real_path_inside before every output is touched).  tools/harness/c03.py ties the models to the
    running code and kernel.
 
    extract_fs f cwd dest es mode  runs the extraction of the members es (archive order) into the filesystem f
    with current directory cwd and the `path` argument dest; it returns Ret/Exc (completed / raised) and the final
-   state: filesystem + list of effects (kind, real path).  final_state takes that state in both cases. *)
+   state: filesystem + list of effects (kind, real path).  final_state takes that state in both cases.
+   dest_path cwd dest is the destination as a path (None = the current directory); resolve f cwd true p is the
+   kernel's resolution of p, links followed. *)
 From P7 Require Import Prelude FS ExtractFS FSProofs.
 Open Scope Z_scope.
 
-(* ---- the property at full strength is FALSE of the faithful model (and of the code: the harness replays
-        the witnesses on the implementation).  Full statement: *)
-Theorem C03_extract_confined_refuted :
-  ~ (forall f cwd dest es mode d,
-       dest_ok cwd dest d -> nodd d -> real_dir f d -> no_links_under f d ->
-       effs_under d (s_eff (final_state (extract_fs f cwd dest es mode)))).
-Proof. exact extract_confined_refuted. Qed.
-Print Assumptions C03_extract_confined_refuted.
+(* ---- the property at full strength.  f: any tree in which every name lies in a directory (wf); the current
+   directory exists; the destination -- absolute, relative, reached through symbolic links, or None -- resolves to a
+   directory d.  es: ANY archive (names, kinds, link targets, order, number of members: unrestricted), mode: one or
+   several folders.  Whether extraction completes or raises, every effect (mkdir, create, truncate, symlink, unlink,
+   utime, chmod -- at the place the kernel resolves) lies at or below d.
+   dest_rooted: the text of the destination keeps a root when its ".." are resolved; it holds for every destination
+   that does not begin with exactly two slashes (C03_rooted_not_two). *)
+Theorem C03_extract_confined_all : forall f cwd dest es mode d,
+  wf f -> lookup f cwd = Some Dir -> nodd cwd -> dest_rooted cwd dest ->
+  resolve f cwd true (dest_path cwd dest) = RFound d Dir ->
+  effs_under d (s_eff (final_state (extract_fs f cwd dest es mode))).
+Proof. exact extract_effects_inside. Qed.
+Print Assumptions C03_extract_confined_all.
 
-(* witness 1, destination given: link "l" -> ".", link "l/m" -> "..", file "l/m/x": each link passes the lexical
-   is_path_valid, the kernel follows them, x is created, re-timed and re-moded in the parent of the destination *)
-Theorem C03_extract_confined_chain_refuted :
-  dest_ok [w_jail] (Some (mkP 1 w_d)) w_d /\ nodd w_d /\ real_dir w_fs w_d /\ no_links_under w_fs w_d /\
-  extract_fs w_fs [w_jail] (Some (mkP 1 w_d)) w_chain 0 =
+(* ... and the tree stays well formed, d stays a directory (with every directory above it) *)
+Theorem C03_extract_confined_all_inv : forall f cwd dest es mode d,
+  wf f -> lookup f cwd = Some Dir -> nodd cwd -> dest_rooted cwd dest ->
+  resolve f cwd true (dest_path cwd dest) = RFound d Dir ->
+  let s := final_state (extract_fs f cwd dest es mode) in
+  wf (s_fs s) /\ real_dir (s_fs s) d /\ lookup (s_fs s) cwd = Some Dir /\ effs_under d (s_eff s).
+Proof. exact extract_confined_all. Qed.
+Print Assumptions C03_extract_confined_all_inv.
+
+Theorem C03_rooted_not_two : forall cwd dest,
+  match dest with Some p => proot p = 0 \/ proot p = 1 | None => True end -> dest_rooted cwd dest.
+Proof. exact rooted_not_two. Qed.
+Print Assumptions C03_rooted_not_two.
+
+(* what the checks rest on: whenever the kernel resolves a path (at most 40 links, final link followed),
+   os.path.realpath -- no limit on links, loops detected through `seen` -- names the same place *)
+Theorem C03_kernel_agrees : forall f fk j ab cur todo r l q,
+  walk fk f true j cur todo = (r, l) -> loc_of r = Some q ->
+  exists ab', pyreal (S fk) f [] ab cur todo = POk ab' q.
+Proof. exact kernel_agrees. Qed.
+Print Assumptions C03_kernel_agrees.
+
+(* regression witnesses: the code before the repair (no real-path checks) escaped through link members that each
+   pass the lexical is_path_valid: link "l" -> ".", link "l/m" -> "..", file "l/m/x" (destination given and None),
+   and link "A" -> "B/.." made while B is missing, link "B" -> ".", file "A/x" *)
+Example C03_chain_unrepaired_escapes :
+  extract_fs_unrepaired w_fs [w_jail] (Some (mkP 1 w_d)) w_chain 0 =
     Ret tt (mkSt [([w_jail; [120]], File [68]);
                   ([w_jail; w_dest; [109]], Link (mkP 0 [[46; 46]]));
                   ([w_jail; w_dest; [108]], Link (mkP 0 []));
                   ([w_jail], Dir); ([w_jail; w_dest], Dir); ([w_jail; w_out], Dir)]
                  [(KChmod, [w_jail; [120]]); (KUtime, [w_jail; [120]]); (KCreate, [w_jail; [120]]);
                   (KSymlink, [w_jail; w_dest; [109]]); (KSymlink, [w_jail; w_dest; [108]])]) /\
-  ~ effs_under w_d (s_eff (final_state (extract_fs w_fs [w_jail] (Some (mkP 1 w_d)) w_chain 0))).
-Proof. exact extract_confined_chain_refuted. Qed.
-Print Assumptions C03_extract_confined_chain_refuted.
+  effs_underb w_d (s_eff (final_state (extract_fs_unrepaired w_fs [w_jail] (Some (mkP 1 w_d)) w_chain 0))) = false /\
+  effs_underb w_d (s_eff (final_state (extract_fs_unrepaired w_fs w_d None w_chain 0))) = false /\
+  effs_underb w_d (s_eff (final_state (extract_fs_unrepaired w_fs [w_jail] (Some (mkP 1 w_d)) w_order 0))) = false.
+Proof. exact chain_unrepaired_escapes. Qed.
 
-(* the same chain without a destination (link members are extracted there since is_path_valid accepts None) *)
-Theorem C03_extract_confined_chain_none_refuted :
-  dest_ok w_d None w_d /\ nodd w_d /\ real_dir w_fs w_d /\ no_links_under w_fs w_d /\
-  In (KCreate, [w_jail; [120]]) (s_eff (final_state (extract_fs w_fs w_d None w_chain 0))) /\
-  ~ effs_under w_d (s_eff (final_state (extract_fs w_fs w_d None w_chain 0))).
-Proof. exact extract_confined_chain_none_refuted. Qed.
-Print Assumptions C03_extract_confined_chain_none_refuted.
+(* the same archives with the checks: the links are made, the member named through them is refused (Bad7zFile) *)
+Example C03_chain_repaired_refused :
+  extract_fs w_fs [w_jail] (Some (mkP 1 w_d)) w_chain 0 =
+    Exc XBad7z (mkSt [([w_jail; w_dest; [109]], Link (mkP 0 [[46; 46]]));
+                      ([w_jail; w_dest; [108]], Link (mkP 0 []));
+                      ([w_jail], Dir); ([w_jail; w_dest], Dir); ([w_jail; w_out], Dir)]
+                     [(KSymlink, [w_jail; w_dest; [109]]); (KSymlink, [w_jail; w_dest; [108]])]) /\
+  s_eff (final_state (extract_fs w_fs w_d None w_chain 0)) =
+    [(KSymlink, [w_jail; w_dest; [109]]); (KSymlink, [w_jail; w_dest; [108]])] /\
+  extract_fs w_fs [w_jail] (Some (mkP 1 w_d)) w_order 0 =
+    Exc XBad7z (mkSt [([w_jail; w_dest; [66]], Link (mkP 0 []));
+                      ([w_jail; w_dest; [65]], Link (mkP 0 [[66]; [46; 46]]));
+                      ([w_jail], Dir); ([w_jail; w_dest], Dir); ([w_jail; w_out], Dir)]
+                     [(KSymlink, [w_jail; w_dest; [66]]); (KSymlink, [w_jail; w_dest; [65]])]).
+Proof. exact chain_repaired_refused. Qed.
 
-(* ---- what does hold.  Main theorem: the destination d is an existing real directory (every prefix of d is a
-   directory: no link on the way) given as a canonical absolute path, as a path relative to cwd, or as None (the
-   current directory); every symbolic link already below d and every symbolic-link member has a relative target
-   without "..".  No condition on member names: the sanitiser takes care of them, for destination None as well.  Then, whether extraction completes or raises, every effect lies below d,
-   and the same conditions hold of the final filesystem. *)
-Theorem C03_extract_confined_general : forall f cwd dest es mode d,
-  dest_ok cwd dest d -> nodd d -> real_dir f d -> links_safe f d ->
-  Forall entry_ok es ->
-  let s := final_state (extract_fs f cwd dest es mode) in
-  effs_under d (s_eff s) /\ real_dir (s_fs s) d /\ links_safe (s_fs s) d.
-Proof.
-  intros f cwd dest es mode d H1 H2 H3 H4 H5 s.
-  destruct (extract_confined_general f cwd dest es mode d H1 H2 H3 H4 H5) as [A [B C]]. auto.
-Qed.
-Print Assumptions C03_extract_confined_general.
+(* the hypotheses of the theorem are met by a populated destination reached through a link and holding old links
+   that lead out of it (19 effects of a mixed archive; members named through the old links are refused, the
+   unrepaired code followed them) *)
+Example C03_all_hyps_satisfiable :
+  wf y_fs /\ lookup y_fs [w_jail] = Some Dir /\ nodd [w_jail] /\ dest_rooted [w_jail] (Some y_dest) /\
+  resolve y_fs [w_jail] true (dest_path [w_jail] (Some y_dest)) = RFound w_d Dir /\
+  (exists s, extract_fs y_fs [w_jail] (Some y_dest) y_es 0 = Ret tt s /\ length (s_eff s) = 19%nat) /\
+  extract_fs y_fs [w_jail] (Some y_dest) y_out 0 = Exc XBad7z (mkSt y_fs []) /\
+  extract_fs y_fs [w_jail] (Some y_dest) y_outf 0 = Exc XBad7z (mkSt y_fs []) /\
+  effs_underb w_d (s_eff (final_state (extract_fs_unrepaired y_fs [w_jail] (Some y_dest) y_out 0))) = false /\
+  effs_underb w_d (s_eff (final_state (extract_fs_unrepaired y_fs [w_jail] (Some y_dest) y_outf 0))) = false.
+Proof. exact all_hyps_satisfiable. Qed.
 
-(* the partial statement of the property: no symbolic-link member, no link below the destination *)
-Theorem C03_extract_confined_partial : forall f cwd p0 es mode d,
-  dest_ok cwd (Some p0) d -> nodd d -> real_dir f d -> no_links_under f d ->
-  Forall (fun e => e_kind e <> 2) es ->
-  effs_under d (s_eff (final_state (extract_fs f cwd (Some p0) es mode))).
-Proof. exact extract_confined_nolinks. Qed.
-Print Assumptions C03_extract_confined_partial.
+Example C03_w_hyps : wf w_fs /\ lookup w_fs [w_jail] = Some Dir /\ nodd [w_jail] /\ nodd w_d /\
+  resolve w_fs [w_jail] true (mkP 1 w_d) = RFound w_d Dir /\ resolve w_fs w_d true (mkP 1 w_d) = RFound w_d Dir.
+Proof. exact w_hyps. Qed.
 
-(* destination None = the current directory (formerly refuted by the names ".//abs/x" and "../zz/../dest/x";
-   repaired in get_sanitized_output_path, which now returns the path it checked); symbolic-link members are
-   extracted there too (is_path_valid accepts None) and are covered under the same entry_ok condition *)
-Theorem C03_extract_confined_none : forall f cwd es mode,
-  nodd cwd -> real_dir f cwd -> links_safe f cwd -> Forall entry_ok es ->
-  effs_under cwd (s_eff (final_state (extract_fs f cwd None es mode))).
-Proof. exact extract_confined_none. Qed.
-Print Assumptions C03_extract_confined_none.
-
-Theorem C03_sanitized_none_inside : forall nm cwd0 o, nodd cwd0 ->
-  get_sanitized_output_path nm cwd0 None = Some o -> proot o = 0 /\ nodd (pparts o).
-Proof. exact sanitized_none_inside. Qed.
-Print Assumptions C03_sanitized_none_inside.
-
-(* the former witnesses *)
+(* destination None: the former witnesses (repaired earlier in get_sanitized_output_path) *)
 Example C03_none_absolute_name_refused : extract_fs w_fs w_d None w_absname 0 = Exc XBad7z (mkSt w_fs []).
 Proof. exact none_absolute_name_refused. Qed.
 Example C03_none_climb_confined :
@@ -89,7 +107,7 @@ Example C03_none_climb_confined :
     [(KChmod, [w_jail; w_dest; [120]]); (KUtime, [w_jail; w_dest; [120]]); (KCreate, [w_jail; w_dest; [120]])].
 Proof. exact none_climb_confined. Qed.
 
-(* the sanitiser: with a destination, every accepted name is lexically below it *)
+(* the sanitiser (lexical checks, kept): with a destination, every accepted name is lexically below it *)
 Theorem C03_sanitized_lexically_inside : forall nm cwd0 b o,
   get_sanitized_output_path nm cwd0 (Some b) = Some o ->
   proot o = proot (canonical_path b) /\ prefixb (pparts (canonical_path b)) (pparts o) = true.
@@ -102,28 +120,13 @@ Theorem C03_sanitized_canonical_inside : forall nm cwd0 b o, proot b = 1 -> nodd
 Proof. exact sanitized_canonical_inside. Qed.
 Print Assumptions C03_sanitized_canonical_inside.
 
-(* the kernel walk itself: from a directory below d, over components without "..", through links with safe
-   targets only, the result is below d *)
-Theorem C03_walk_inside : forall f d, real_dir f d -> links_safe f d ->
-  forall fuel follow links cur todo, nodd todo -> under d cur -> lookup f cur = Some Dir ->
-  match walk fuel f follow links cur todo with
-  | RFound q n => under d q /\ lookup f q = Some n
-  | RMissing q => under d q /\ lookup f q = None
-  | RErr _ => True
-  end.
-Proof. intros f d Hr Hl. exact (walk_inside f d Hl). Qed.
-Print Assumptions C03_walk_inside.
+Theorem C03_sanitized_none_inside : forall nm cwd0 o, nodd cwd0 ->
+  get_sanitized_output_path nm cwd0 None = Some o -> proot o = 0 /\ nodd (pparts o).
+Proof. exact sanitized_none_inside. Qed.
+Print Assumptions C03_sanitized_none_inside.
 
-(* hypotheses of the theorems are met by concrete non-trivial states *)
-Example C03_general_hyps_satisfiable :
-  dest_ok [w_jail] (Some (mkP 0 [w_dest])) w_d /\ nodd w_d /\ real_dir x_fs w_d /\ links_safe x_fs w_d /\
-  Forall entry_ok (firstn 5 x_es) /\
-  length (s_eff (final_state (extract_fs x_fs [w_jail] (Some (mkP 0 [w_dest])) (firstn 5 x_es) 0))) = 13%nat /\
-  extract_fs x_fs [w_jail] (Some (mkP 0 [w_dest])) x_es 0 = Exc XBad7z (mkSt x_fs []).
-Proof. exact general_hyps_satisfiable. Qed.
-
-Example C03_none_hyps_satisfiable :
-  dest_ok w_d None w_d /\ nodd w_d /\ real_dir w_fs w_d /\ links_safe w_fs w_d /\
-  Forall entry_ok [w_file [97; 47; 102]; w_link [107] [97]; w_file [107; 47; 103]; w_file [97; 47; 102]] /\
-  length (s_eff (final_state (extract_fs w_fs w_d None [w_file [97; 47; 102]; w_link [107] [97]; w_file [107; 47; 103]; w_file [97; 47; 102]] 0))) = 11%nat.
-Proof. exact none_hyps_satisfiable. Qed.
+(* every name the sanitiser accepts is free of "..", whatever the form of the destination *)
+Theorem C03_sanitized_nodd : forall nm cwd dest o, nodd cwd -> dest_rooted cwd dest ->
+  get_sanitized_output_path nm cwd (sanitize_base cwd dest) = Some o -> nodd (pparts o).
+Proof. exact sanitize_nodd. Qed.
+Print Assumptions C03_sanitized_nodd.
